@@ -72,13 +72,31 @@ fn judge(l: &mut Local, s: &str, what: String, y: i64, mo: u8, d: u8, h: u8, mi:
     }
 }
 
+fn render<T: std::fmt::Display>(l: &mut Local, v: &T, what: impl Fn() -> String) -> Option<String> {
+    use std::fmt::Write;
+    let mut s = String::new();
+    match write!(s, "{}", v) {
+        Ok(()) => Some(s),
+        Err(_) => {
+            l.violation("text rendering: a valid value has no text (Display returned an error)", what(), "a text".into(), format!("fmt::Error after {:?}", s));
+            None
+        }
+    }
+}
+
 pub fn check_dt(l: &mut Local, dt: &DateTime) {
-    let s = dt.to_string();
+    let s = match render(l, dt, || facade::fmt_dt(dt)) {
+        Some(s) => s,
+        None => return,
+    };
     judge(l, &s, format!("{}.to_string()", facade::fmt_dt(dt)), dt.year() as i64, dt.month(), dt.month_day(), dt.hour(), dt.minute(), dt.second(), dt.nanoseconds(), dt.local_time_type().ut_offset());
 }
 
 pub fn check_utc(l: &mut Local, dt: &UtcDateTime) {
-    let s = dt.to_string();
+    let s = match render(l, dt, || facade::fmt_utc(dt)) {
+        Some(s) => s,
+        None => return,
+    };
     judge(l, &s, format!("{}.to_string()", facade::fmt_utc(dt)), dt.year() as i64, dt.month(), dt.month_day(), dt.hour(), dt.minute(), dt.second(), dt.nanoseconds(), 0);
 }
 
@@ -157,7 +175,7 @@ pub fn run(ctx: &Ctx) -> Report {
         return rep;
     }
     // wl 1: grid years x offsets x field corners through DateTime::new and UtcDateTime::new
-    let corners: [(u8, u8, u8, u8, u8, u32); 6] = [(1, 1, 0, 0, 0, 0), (12, 31, 23, 59, 59, 999_999_999), (2, 28, 9, 9, 9, 9), (10, 10, 10, 10, 10, 100_000_000), (6, 30, 23, 59, 60, 1), (9, 1, 1, 1, 1, 10)];
+    let corners: [(u8, u8, u8, u8, u8, u32); 9] = [(1, 1, 0, 0, 0, 0), (12, 31, 23, 59, 59, 999_999_999), (2, 28, 9, 9, 9, 9), (10, 10, 10, 10, 10, 100_000_000), (6, 30, 23, 59, 60, 1), (9, 1, 1, 1, 1, 10), (12, 31, 23, 59, 60, 999_999_999), (1, 1, 0, 0, 60, 0), (12, 31, 23, 58, 60, 7)];
     run_enum(ctx, &mut rep, 1, (YEARS.len() * OFFSETS.len()) as u64, |l, _rng, i| {
         let y = YEARS[i as usize / OFFSETS.len()];
         let off = OFFSETS[i as usize % OFFSETS.len()];
